@@ -172,7 +172,10 @@ Others(O, s) == {b \in 1..Len(O) : b # s /\ Shares(O, s, b)}
 Legal(O, M, st) ==
   LET o == O[st.s]  n == NC(o)  op == st.op IN
   CASE op = "asType" -> \A p \in 1..n : M[o.cells[p]].d = 0      \* derivatives across element types: unspecified
-    [] op \in {"row", "col"} -> TRUE
+    [] op = "der" -> ~o.pt                                         \* derivative state exists for the Real types only
+    [] op = "vars" -> ~o.pt /\ \A p \in 1..n : M[o.cells[p]].d = 0 \/ (M[o.cells[p]].d \div 100) # n
+        \* SetVariable only (re)allocates when N or the order change; what it does to derivatives
+        \* that are already there is not documented
     [] op = "iter" -> \A p \in 1..n : M[o.cells[p]].v # 0        \* whether iterators visit zeros is unspecified
     [] op = "itnext" -> o.pos <= n /\ \A p \in 1..n : M[o.cells[p]].v # 0
     [] op = "itset"  -> o.pos <= n /\ st.w # 0
@@ -248,7 +251,8 @@ MutCands(O, M, s) ==
   \cup (IF o.k # "s" /\ n >= 2 THEN {St("swap", s, 1, n, 0, 0, 0)} ELSE {})
   \cup (IF o.k = "v" /\ n >= 2 THEN {St("reverse", s, 0, 0, 0, 0, 0), St("sort", s, 0, 0, 0, 0, 0)} ELSE {})
   \cup (IF o.k = "v" THEN {St("append", s, 0, 0, 0, 0, 6)} ELSE {})
-  \cup (IF o.k = "m" /\ o.r >= 2 THEN {St("swaprows", s, 0, o.r - 1, 0, 0, 0)} ELSE {})
+  \cup (IF o.k = "m" /\ o.r >= 2 /\ o.r = o.c THEN {St("swaprows", s, 0, o.r - 1, 0, 0, 0)} ELSE {})
+       \* SwapRows is defined for square matrices only (it returns an error otherwise)
 
 WellFormed(O, st) ==      \* drop the place-holder candidates
   st.op = "slice" => (0 <= st.a /\ st.a < st.b /\ st.b <= NC(O[st.s]))
@@ -271,6 +275,7 @@ Take(st, pre2, nm2) ==
        /\ ph' = [pre |-> pre2, nm |-> nm2]
        /\ hist' = Append(hist, st)
        /\ (Emit => PrintT(ToJson([fam |-> Fam, pat |-> Pat, init |-> InitVals, steps |-> hist',
+                                  prev |-> AllContent(objs, mem),
                                   exp |-> AllContent(ef.O, ef.M), res |-> ef.res])))
 
 Init == /\ objs = <<InitObj>>
@@ -286,7 +291,7 @@ Derive == /\ Len(objs) < MaxObj /\ ph.nm = 0
           /\ \E s \in 1..Len(objs) : \E st \in DeriveCands(objs, mem, s) : Take(st, ph.pre, 0)
 Mutate == /\ Len(objs) >= 2 /\ ph.nm < MaxMut
           /\ \E s \in 1..Len(objs) : \E st \in MutCands(objs, mem, s) : Take(st, ph.pre, ph.nm + 1)
-Observe == /\ Len(objs) >= 2
+Observe == /\ Len(objs) >= 2 /\ ph.nm = 0
            /\ \E s \in 1..Len(objs) : \E st \in ProbeCands(objs, s) : Take(st, ph.pre, ph.nm)
 
 Next == PreMutate \/ Derive \/ Mutate \/ Observe
